@@ -4,7 +4,7 @@ Same technique as C05 for compmech.analysis.freq and Panel.freq: the real code r
 patterns under a forking comparison policy (the wrapper's own sort / filter / null detection decide on symbolic values),
 ARPACK/LAPACK are contract stubs.  The stubs return omega^2 (resp. -1/omega^2) built from fresh omega symbols so that the
 square roots taken by the wrapper are exact (sqrt hook returns the registered root)."""
-import json, traceback
+import json, os, traceback
 import numpy as np
 import z3
 from fractions import Fraction
@@ -461,6 +461,43 @@ def main():
         run.canary(len(cres['sat']) == 1, 'perturbed residual')
     except Exception as e:
         run.harness_error('canary crashed: %s' % e)
+    # call sites inside the package that switch the condensation on unconditionally (reduced_dof=True is the recorded finding:
+    # the returned pairs solve the (v, w) block only).  Read from the source (ast), replayed by the mechanism's float twin.
+    import ast
+    from ..harness import REPO
+    for root, _, files in os.walk(os.path.join(REPO, 'compmech')):
+        if os.sep + 'tests' in root:
+            continue
+        for fn in sorted(files):
+            if not fn.endswith('.py'):
+                continue
+            path = os.path.join(root, fn)
+            try:
+                tree = ast.parse(open(path).read())
+            except SyntaxError:
+                continue
+            for node in ast.walk(tree):
+                if isinstance(node, ast.Call) and getattr(node.func, 'attr', getattr(node.func, 'id', None)) == 'freq':
+                    for kw in node.keywords:
+                        if kw.arg == 'reduced_dof' and isinstance(kw.value, ast.Constant) and kw.value.value is True:
+                            rel = os.path.relpath(path, REPO)
+                            real = real_replay({'target': 'analysis.freq', 'n': 6, 'active': list(range(6)), 'num': 2, 'path': 'dense', 'sort': False, 'reduced': True})
+                            run.obligations += 1
+                            run.violation('call-site/%s' % rel, '%s line %d calls freq(..., reduced_dof=True) unconditionally: on the dense path the returned pairs are not eigenpairs of (K, M) (float twin of the mechanism: %s)' % (
+                                rel, node.lineno, real), {'file': rel, 'line': node.lineno, 'real_function': real})
+    # float twins on the real solver route (one run per wrapper configuration, sampling -- stated as such)
+    twins = []
+    for cfg in cf:
+        if cfg.get('rounding') or cfg.get('history') or cfg.get('reduced') or cfg.get('unsymmetric_K'):
+            continue
+        real = real_replay(cfg)
+        twins.append(real.get('worst_rel_residual'))
+        if real.get('raised') or (real.get('worst_rel_residual') or 0) > 1e-8:
+            if not any(v['key'].startswith('%s' % cfg['group']) for v in run.violations):
+                run.obligations += 1
+                run.violation('%s/%s/float-twin' % (cfg['group'], cfg['variant']), '%s %s: the float twin of the configuration fails on the real function although the symbolic run passed: %s' % (
+                    cfg['target'], cfg['variant'], real), {'cfg': cfg, 'real_function': real, 'decided_by': 'one float run on the real route (no solver verdict for this branch)'})
+    run.extra['float_twins'] = {'runs': len(twins), 'worst_relative_residual': max([t for t in twins if t is not None] or [0])}
     return run.finish()
 
 
